@@ -55,4 +55,8 @@ def final_instances(tier):
     return out
 
 def instances(tier):
-    return path_instances(tier) + weave_instances(tier, "O2", "weave") + final_instances(tier)
+    from vk.props.C04 import wrap_instances
+    from vk.props.C14 import alpha_instances
+    from vk.props.shared import doalign_instances
+    return (path_instances(tier) + weave_instances(tier, "O2", "weave") + final_instances(tier) + doalign_instances(tier, "O3", "doalign")
+            + wrap_instances("O6") + alpha_instances(tier, ob="O7", prefix="alpha"))
